@@ -313,3 +313,32 @@ def tamper_case(args):
         return lines
     finally:
         w.destroy()
+
+
+def big_manifest_case(args):
+    """C05 on a manifest longer than the 1 MiB read chunk of the hasher that guards the chain: one byte changed in its last
+    part must be refused with 31 like any other edit (the fault model itself has no notion of length)"""
+    nfiles, cmd_name = args
+    w = W.World([("a",)], [], name_class="plain", salt="bigman")
+    try:
+        for i in range(nfiles):
+            with open(os.path.join(w.root, "clip_%05d_with_a_rather_long_name_to_fill_the_manifest.mov" % i), "wb") as fh:
+                fh.write(b"x%d" % i)
+        r0 = w.run(C.create, [w.root, "-h", "md5", "-h", "sha1"])
+        folder = os.path.join(w.root, "ascmhl")
+        man = [n for n in os.listdir(folder) if n.endswith(".mhl")][0]
+        mp = os.path.join(folder, man)
+        data = bytearray(open(mp, "rb").read())
+        size = len(data)
+        pos = data.rfind(b"</md5>") - 3            # a digit of the last recorded digest
+        data[pos] = ord("0") if data[pos] != ord("0") else ord("1")
+        with open(mp, "wb") as fh:
+            fh.write(bytes(data))
+        w.pin_mtimes()
+        pre = w.snapshot()
+        cmd, a = {"verify": (C.verify, [w.root]), "create": (C.create, [w.root, "-h", "md5"]), "info": (C.info, [w.root])}[cmd_name]
+        r = w.run(cmd, a)
+        delta = W.World.delta(pre, w.snapshot())
+        return {"cmd": cmd_name, "size": size, "pos": pos, "create0": r0["exit"], "exit": r["exit"], "delta": [(k, os.path.relpath(p_, w.base)) for k, p_ in delta][:3]}
+    finally:
+        w.destroy()
